@@ -263,6 +263,8 @@ def check_route(rep, db, f, inst):
             lname = iv[-1] if isinstance(iv, tuple) and iv[:1] == ("havoc",) else "i"
             init_ok = any(e.kind == "DECL" and e.b == lname and e.c == C(0) for e in p.events)
             inc_ok = any(e.kind == "STORE" and e.b == lin("+", iv, C(1)) for e in p.events)
+            if any(e.kind == "COUNTER" and e.a == iv for e in p.events):
+                init_ok = inc_ok = True    # the engine's iteration counter of a lockstep pointer walk (from 0, one step per iteration)
             if not (bound_ok and init_ok and inc_ok):
                 rep.violation(rule, site(f), "the element loop does not run i = 0 .. N-1 (N=%s) in steps of 1" % N, f["loc"], inst)
                 return True
